@@ -6,7 +6,7 @@ from __future__ import annotations
 import z3
 
 from . import values as V
-from .smt import fresh_int, fresh_arr, iv
+from .smt import fresh_bool, fresh_int, fresh_arr, iv
 from .values import NONE, VBool, VConst, VExc, VInt, VList, VNone, VObj, VStr, VTuple, Unsupported, lit
 
 
@@ -205,6 +205,65 @@ def _find_writer(st, writer):
                 return v
         env = env.get("__caller_env__")
     return writer
+
+
+def do_quote_contract(ex, st, args, kwargs, node):
+    """_do_quote(self, val, length, kind, data, writer) seen from a caller: obligations that the
+    call meets the function's precondition (the proof of _do_quote starts from exactly this
+    state): length is len(val), data/kind are val's, and the writer is freshly initialised (static
+    BUFFER, size BUF_SIZE, pos 0, changed 0).  Effects: the writer afterwards satisfies the Writer
+    invariant kept by _write_char (its block is the static BUFFER or one live heap block) -- all
+    writes to the writer in _do_quote/_write_pct/_write_utf8 go through _write_char (static
+    obligation in contracts/finite_c.py); the result is the quoted text (stream simulation) or
+    MemoryError is raised."""
+    from .engine import Raised
+    from .values import VExc
+    self_, val, length, kind, data, writer = args
+    ex.oblige(st, "_do_quote-pre:length-is-len(val)", "pre", length.t == val.len(), node, {})
+    ok_data = isinstance(data, VObj) and data.cls == "PyData" and data.fields["str"] is val
+    ex.oblige(st, "_do_quote-pre:data-is-val's-buffer", "pre", z3.BoolVal(bool(ok_data)), node, {})
+    blk = writer.fields.get("buf")
+    is_buf = isinstance(blk, VObj) and blk.cls == "Block" and bool(blk.fields.get("is_BUFFER"))
+    init = [z3.BoolVal(is_buf)]
+    for f, want in (("size", 8192), ("pos", 0), ("changed", 0)):
+        v = writer.fields.get(f)
+        if isinstance(v, VBool):
+            init.append(v.t == (want != 0))
+        elif isinstance(v, VInt):
+            init.append(v.t == want)
+        else:
+            init.append(z3.BoolVal(False))
+    ex.oblige(st, "_do_quote-pre:writer-freshly-initialised", "pre", z3.And(init), node, {})
+    st.ghost["quoted"] = VBool(True)
+    # post-state of the writer: WINV
+    static = fresh_bool("dq_static")
+    k = fresh_int("dq_k")
+    st.ctx.add(k >= 1)
+    st.ctx.add(static == (k == 1))
+    nb = VObj("Block", {"mem": VConst(fresh_arr("dq_mem")), "size": VInt(8192 * k), "static": VBool(static)}, fresh=True)
+    writer.fields["buf"] = nb
+    writer.fields["size"] = VInt(8192 * k)
+    writer.fields["pos"] = VInt(fresh_int("dq_pos"))
+    writer.fields["changed"] = VInt(fresh_int("dq_chg"))
+    st.ghost["live"] = VInt(st.ghost.get("live", VInt(0)).t + z3.If(static, 0, 1))
+    other = st.fork()
+    ex.sol.push()
+    try:
+        q = self_.obj
+        from contracts import spec_quote
+        name = spec_quote.INSTANCE_NAME[id(q)]
+        codes = [ord(c) for c in spec_quote.out_alphabet(name)]
+        r = V.fresh_str(st.ctx, "quoted")
+        A, lo, hi = r.a, r.lo, r.hi
+        st.ctx.addq("alphabet", A, lambda j: z3.Implies(z3.And(lo <= j, j < hi), V.in_set(A[j], codes)))
+        yield r, st
+    finally:
+        ex.sol.pop()
+    ex.sol.push()
+    try:
+        yield Raised(VExc(MemoryError)), other
+    finally:
+        ex.sol.pop()
 
 
 def install(ex, mod):
